@@ -90,6 +90,7 @@ def run(chk):
     gen_c10.generate()          # T-data / source-shape facts regenerated from /repo on every run
     chk.trusted.append('harness/shape.py: AST lookup of the statements mirrored by the hand model (Gen/C10Shape.v)')
     proved = chk.prove(['theories/Gen/C10Shape.v', 'theories/C10/Model.v', 'theories/C10/Proofs.v', 'theories/C10/Run.v'], 'theories/C10/Properties.v')
+    proved = chk.prove(['theories/C10/CastTable.v'], 'theories/C10/CastTableProperties.v') and proved
     model_ok = True
     if not proved:
         try:
@@ -336,6 +337,59 @@ def run(chk):
             elif len(set(ok.values())) > 1 or len(vals) > 1:
                 chk.violation('impl-vs-spec', desc, {'paths disagree': {k: repr(o) for k, o in out.items()}})
             chk.nontrivial.add(tname + ':' + s)
+    # ---- the casting table (F&O 19.1) over 21 source x 21 target types: castable as / cast as / constructor function
+    CT = ['untypedAtomic', 'string', 'float', 'double', 'decimal', 'integer', 'duration', 'yearMonthDuration', 'dayTimeDuration', 'dateTime',
+          'time', 'date', 'gYearMonth', 'gYear', 'gMonthDay', 'gDay', 'gMonth', 'boolean', 'base64Binary', 'hexBinary', 'anyURI']
+    CVAL = {'untypedAtomic': "xs:untypedAtomic('%s')", 'string': "'%s'", 'float': "xs:float('1')", 'double': "1e0", 'decimal': "1.0", 'integer': "1",
+            'duration': "xs:duration('P1Y1D')", 'yearMonthDuration': "xs:yearMonthDuration('P1Y')", 'dayTimeDuration': "xs:dayTimeDuration('P1D')",
+            'dateTime': "xs:dateTime('2000-01-01T00:00:00')", 'time': "xs:time('10:00:00')", 'date': "xs:date('2000-01-01')",
+            'gYearMonth': "xs:gYearMonth('2000-01')", 'gYear': "xs:gYear('2000')", 'gMonthDay': "xs:gMonthDay('--01-01')", 'gDay': "xs:gDay('---01')",
+            'gMonth': "xs:gMonth('--01')", 'boolean': "true()", 'base64Binary': "xs:base64Binary('Cg==')", 'hexBinary': "xs:hexBinary('0A')",
+            'anyURI': "xs:anyURI('a')"}
+    # a lexical form of each target type, for the string / untypedAtomic sources (M in the table: depends on the value)
+    LEX = {'untypedAtomic': 'a', 'string': 'a', 'float': '1', 'double': '1', 'decimal': '1', 'integer': '1', 'duration': 'P1Y1D',
+           'yearMonthDuration': 'P1Y', 'dayTimeDuration': 'P1D', 'dateTime': '2000-01-01T00:00:00', 'time': '10:00:00', 'date': '2000-01-01',
+           'gYearMonth': '2000-01', 'gYear': '2000', 'gMonthDay': '--01-01', 'gDay': '---01', 'gMonth': '--01', 'boolean': 'true',
+           'base64Binary': 'Cg==', 'hexBinary': '0A', 'anyURI': 'a'}
+    ccells = [(a, b) for a in range(len(CT)) for b in range(len(CT))]
+    cmodel = core.run_coq_cases('C10', 'From EP Require Import C10.CastTable.', [f'run_cast {a} {b}' for a, b in ccells],
+                                chunk=500, tag='casttable') if model_ok else [None] * len(ccells)
+
+    def cev(expr):
+        try:
+            return ('val', select(None, expr, item=1, parser=XPath31Parser))
+        except ElementPathError as e:
+            return ('err', (e.code or '').split(':')[-1])
+        except Exception as e:
+            return ('exc', repr(e)[:120])
+    for (a, b), mo in zip(ccells, cmodel):
+        chk.evaluations += 1
+        chk.count('cast-table')
+        if mo is None:
+            continue
+        src = CVAL[CT[a]] % LEX[CT[b]] if '%s' in CVAL[CT[a]] else CVAL[CT[a]]
+        desc = {'source': CT[a], 'target': CT[b], 'value': src}
+        c = cev(f'{src} castable as xs:{CT[b]}')
+        k = cev(f'{src} cast as xs:{CT[b]}')
+        f = cev(f'xs:{CT[b]}({src})')
+        for o in (c, k, f):
+            if o[0] == 'exc':
+                chk.violation('foreign-exception', desc, o[1])
+        allowed = bool(mo)
+        ok_c = c == ('val', allowed)
+        ok_k = (k[0] == 'val') if allowed else k == ('err', 'XPTY0004')
+        ok_f = (f[0] == 'val') if allowed else f == ('err', 'XPTY0004')
+        if not (ok_c and ok_k):
+            chk.corr_fail.append((desc, {'castable': c, 'cast': k[:2]}, 'allowed' if allowed else 'XPTY0004'))
+            chk.violation('impl-vs-spec', desc, {'castable as': str(c), 'cast as': str(k)[:80], 'table': 'allowed' if allowed else 'not allowed'})
+        if not ok_f:
+            if not allowed and f[0] == 'err' and f[1] in ('FORG0001', 'FORG0006') and ok_c and ok_k:
+                chk.known('C10-constructor-error-code-outside-casting-table', desc | {'constructor': f[1], 'spec': 'XPTY0004'})
+            else:
+                chk.violation('impl-vs-spec', desc, {'constructor function': str(f)[:80], 'table': 'allowed' if allowed else 'not allowed'})
+        if allowed and k[0] == 'val' and f[0] == 'val' and not (k[1] == f[1] or (k[1] != k[1] and f[1] != f[1])):
+            chk.violation('impl-vs-spec', desc, {'cast as': repr(k[1]), 'constructor function': repr(f[1])})
+        chk.nontrivial.add(repr(('cast', a, b)))
     chk.rule = ('13 integer types x {boundary values +-1, random values, malformed numerals} decorated with whitespace / sign / leading zeros, through '
                 'the class, is_valid, xs:T(), cast as, castable as and from xs:untypedAtomic; generated and mutated lexical forms of decimal, '
                 'boolean, double, float, hexBinary, base64Binary; canonical strings of integers, decimals and doubles; hexBinary <-> base64Binary '
